@@ -32,7 +32,7 @@ ASSUMPTIONS = [
 ]
 BUDGETS = dict(quick=dict(shards=8), thorough=dict(shards=16))
 
-ENTRY_POINTS = ['biogeme', 'get_value_c', 'get_value_and_derivatives']
+ENTRY_POINTS = ['biogeme', 'get_value_c', 'get_value_and_derivatives', 'created_function', 'objective_function']
 
 
 # ---------------------------------------------------------------------------------------------
@@ -124,6 +124,7 @@ def strat_faults(draw, tier):
     case['entry'] = draw(st.sampled_from(ENTRY_POINTS if kind != 'hessian_without_gradient' else ['get_value_and_derivatives', 'create_function']))
     case['bad_name'] = draw(st.sampled_from(['NOT_A_COLUMN', 'missing col', 'xi_draw', 'omega_rv', 'Zz9']))
     case['formulas'] = draw(st.sampled_from(['single', 'dict_first', 'dict_last']))
+    case['late_column'] = draw(st.sampled_from([False, False, True]))
     return case
 
 
@@ -153,13 +154,43 @@ def _formulas(e, mode, database):
     return {'aa_other': other, 'weight': Numeric(1.0), 'log_like': e}
 
 
+def _database(case, root):
+    """The table as a Database; optionally one column the formula reads is added with pandas after the creation."""
+    if not case.get('late_column'):
+        return build.build_database(case['table'])
+    cols = [c[0] for c in case['table']['columns']]
+    used = sorted({n_[1] for n_ in refsem.walk(root, []) if n_[0] == 'Var' and n_[1] in cols})
+    if not used or len(cols) < 2:
+        return build.build_database(case['table'])
+    late = used[len(used) // 2]
+    early = dict(columns=[c for c in case['table']['columns'] if c[0] != late])
+    database = build.build_database(early)
+    full = build.build_dataframe(case['table'])
+    database.data[late] = full[late].to_numpy()
+    return database
+
+
 def _run_entry(case, root, entry, fault):
     import biogeme.biogeme as bio
     from biogeme.parameters import Parameters
 
-    database = build.build_database(case['table'])
+    database = _database(case, root)
     e = build.Builder([], overloads=case['overloads']).build(root)
     betas = case['betas'] or None
+    if fault != 'hessian_without_gradient' and entry in ('created_function', 'objective_function'):
+        # the function is built first and called afterwards, with the free parameters as a vector (sorted names)
+        names = refsem.free_names(root, [])
+        point = {}
+        for n_ in refsem.walk(root, []):
+            for bspec in ([n_] if n_[0] == 'Beta' else [bb for bb, _ in n_[1]] if n_[0] == 'LinUtil' else []):
+                point[bspec[1]] = (case['betas'] or {}).get(bspec[1], bspec[2])
+        x = np.array([point[n_] for n_ in names], dtype=float)
+        if entry == 'created_function':
+            fct = e.create_function(database=database, number_of_draws=4, gradient=False, hessian=False, bhhh=False)
+            return ('total', float(fct(x).function))
+        obj = e.create_objective_function(database=database, number_of_draws=4, gradient=False, hessian=False, bhhh=False)
+        obj.set_variables(x)
+        return ('total', float(obj.f()))
     if fault == 'hessian_without_gradient':
         if entry == 'create_function':
             fct = e.create_function(database=database, gradient=False, hessian=True, bhhh=False)
@@ -192,7 +223,7 @@ def judge_faults(case) -> Outcome:
     parents = case['parents']
     direct_parent = parents[-1] if parents else 'root'
     out.nontrivial = len(parents) >= 2 and not direct_parent.startswith(('Plus', 'Times'))
-    out.classes += [f'fault={kind}', f'entry={entry}', f'under={direct_parent}']
+    out.classes += [f'fault={kind}', f'entry={entry}', f'under={direct_parent}', 'column_added_after_creation' if case.get('late_column') else 'columns_at_creation']
     try:
         refs = reference_values(case, root)
     except (refsem.IllPosed, OverflowError) as e:
@@ -207,6 +238,12 @@ def judge_faults(case) -> Outcome:
                      f'for {refsem.render(root)[:250]}')
             return out
         vals = res0['value'][1]
+        if res0['value'][0] == 'total':
+            total = sum(ev.v for ev in refs)
+            if not abs(vals - total) <= sum(tol(ev) for ev in refs) + 1e-12 * sum(abs(ev.v) for ev in refs):
+                out.fail(f'valid_value:{entry}', f'{vals!r} vs reference total {total!r}')
+                return out
+            vals = []
         for i, (v, ev) in enumerate(zip(vals, refs)):
             if not abs(v - ev.v) <= tol(ev):
                 out.fail(f'valid_value:{entry}', f'row {i}: {v!r} vs reference {ev.v!r}')
@@ -243,8 +280,8 @@ def strat_structural(draw, tier):
     alts = draw(st.lists(st.integers(0, 40), min_size=n_alts, max_size=n_alts, unique=True))
     table, info = draw(gen.tables(min_rows=2, max_rows=4, alts=alts, n_int=(1, 1), n_bool=(1, 1)))
     case = dict(kind=kind, table=table, alts=alts, utils=draw(mc.utilities(info, alts, ['B_TIME', 'b_cost', 'ASC_1', 'asc_2'])),
-                av=draw(mc.availabilities(info, alts)), choice_col=info['choice'], nests=None, mu=None, log_gi=None,
-                entry=draw(st.sampled_from(['biogeme', 'get_value_c'])), row=draw(st.integers(0, 3)),
+                av=draw(mc.availabilities(info, alts, table)), choice_col=info['choice'], nests=None, mu=None, log_gi=None,
+                entry=draw(st.sampled_from(['biogeme', 'get_value_c', 'created_function'])), row=draw(st.integers(0, 3)),
                 column=draw(st.integers(0, 20)), np_seed=0, extra=draw(st.integers(41, 60)),
                 formulas=draw(st.sampled_from(['single', 'dict_first', 'dict_last'])))
     if kind in ('overlapping_nests', 'nest_outside_choice_set'):
@@ -257,6 +294,12 @@ def strat_structural(draw, tier):
         case['model'] = draw(st.sampled_from(['cnl', 'logcnl', 'cnlmu']))
         case['tuple_syntax'] = False
     return case
+
+
+def _free_type():
+    from biogeme.expressions import TypeOfElementaryExpression
+
+    return TypeOfElementaryExpression.FREE_BETA
 
 
 def _run_structural(case):
@@ -277,7 +320,7 @@ def _run_structural(case):
         return ('value', 'database accepted')
     if kind == 'nan_cell':
         col = df.columns[case['column'] % len(df.columns)]
-        df[col] = df[col].astype(float)
+        df[col] = df[col].astype(['float64', 'float32', 'float64', 'float16'][case['extra'] % 4])
         df.loc[df.index[case['row'] % len(df)], col] = float('nan')
         db.Database('t', df)
         return ('value', 'database accepted')
@@ -321,6 +364,9 @@ def _run_structural(case):
     if case['entry'] == 'biogeme':
         the = bio.BIOGEME(database, _formulas(expr, case.get('formulas'), database), parameters=Parameters())
         return ('value', float(the.calculate_likelihood([0.0] * len(the.free_beta_names), scaled=False)))
+    if case['entry'] == 'created_function':
+        fct = expr.create_function(database=database, gradient=False, hessian=False, bhhh=False)
+        return ('value', float(fct(np.zeros(len(expr.set_of_elementary_expression(the_type=_free_type())))).function))
     return ('value', np.asarray(expr.get_value_c(database=database, prepare_ids=True), dtype=float).tolist())
 
 
